@@ -120,9 +120,9 @@ def run(tier, replay):
         "posts": posts,
         "distinct_nontrivial": len(distinct),
         "rule": "cases = corpus + product of 12 session histories (none/init/re-init in clear and in an envelope/"
-                "open/close/create/batch with init/notification init) x 94 probe requests (6 non-JSON bodies, 13 junk "
+                "open/close/create/batch with init/notification init) x 102 probe requests (6 non-JSON bodies, 13 junk "
                 "values, every method in clear, clear batches, envelopes under current/superseded/never-issued key x 10 "
-                "payloads incl. batches, nested envelopes, notifications, 9 tamperings of body/tag/nonce, array-form and "
+                "payloads incl. batches (with junk items, with open_wallet inside), nested envelopes, notifications, 9 tamperings of body/tag/nonce, array-form and "
                 "wrong-method envelopes) each followed by two authenticated sentinel calls + PRNG sessions of 4..16 POSTs; "
                 "non-trivial = distinct session in which the dispatcher was invoked at least once "
                 "(clear-text key exchange or envelope authenticated under the current key)",
